@@ -14,49 +14,81 @@ TRUSTED = ["correspondence harnesses harness/overlay/index/zz_verif_c22*_test.go
            "uint32 line numbers/lengths as N/nat (no wrap-around below 2^32 lines)"]
 
 
+def par_eval(ctx, pid, imports, case_type, fn, terms, shard=100, workers=6):
+    """vf.coq_eval_cases on shards, several coqc processes at a time (elaborating the case terms dominates)."""
+    from concurrent.futures import ThreadPoolExecutor
+    chunks = [(s, terms[s:s + shard]) for s in range(0, len(terms), shard)]
+
+    def one(a):
+        s, ch = a
+        return s, vf.coq_eval_cases(ctx, pid, imports, case_type, fn, ch, shard=shard, tag="_p%d" % s)
+    out = dict(ok=True, bad=[], evaluated=0, log="")
+    with ThreadPoolExecutor(max_workers=workers) as ex:
+        for s, r in ex.map(one, chunks):
+            out["ok"] = out["ok"] and r["ok"]
+            out["bad"] += [s + i for i in r["bad"]]
+            out["evaluated"] += r["evaluated"]
+            out["log"] += r["log"]
+    return out
+
+
 def run(ctx):
+    import time
+    from concurrent.futures import ThreadPoolExecutor
     pid = ctx.pid
-    proofs = vf.coq_props(ctx, pid)
+    T = {}
+    t0 = time.time()
     broken, failures = [], []
-    aok, aout = vf.audit()
-    if not aok:
-        proofs["ok"] = False
-        proofs["discharged"] = 0
-        broken.append("audit: " + aout[-800:])
-    if ctx.tier == "thorough" and proofs["ok"]:
-        cok, cout = vf.coqchk(pid)
-        proofs["coqchk"] = cout[-1500:]
-        if not cok:
-            proofs["ok"] = False
-            broken.append("coqchk rejects Props/%s.vo: %s" % (pid, cout[-800:]))
-    if not proofs["ok"]:
-        broken.append("proof obligations of Props/%s.v do not check: %s" % (pid, (proofs.get("broken_files") or proofs.get("nonstd_axioms") or proofs["log"][-800:])))
-    recs = []
     n = ctx.n(300, 5000)
-    h1 = vf.go_harness(ctx, "index", "TestVerifC22$", ["index/zz_verif_c22_test.go", "index/zz_verif_c22gen_test.go"], n,
-                       timeout=600 if ctx.tier == "quick" else 3000, out_name="out-index.jsonl")
-    if h1["rc"] != 0:
-        broken.append("harness TestVerifC22 (index) failed (rc=%d): %s" % (h1["rc"], h1["log"][-1500:]))
-    recs += h1["records"]
     # the shared generator file, re-packaged for package search
     gen = open(os.path.join(vf.HARNESS, "overlay", "index", "zz_verif_c22gen_test.go")).read().replace("package index", "package search", 1)
     gp = os.path.join(ctx.tmp, "zz_verif_c22gen_search_test.go")
     with open(gp, "w") as f:
         f.write(gen)
-    if os.path.exists(os.path.join(vf.HARNESS, "overlay", "search", "zz_verif_c22_test.go")):
-        h2 = vf.go_harness(ctx, "search", "TestVerifC22", ["search/zz_verif_c22_test.go"], ctx.n(200, 4000),
-                           timeout=600 if ctx.tier == "quick" else 3000, out_name="out-search.jsonl",
-                           extra_replace={os.path.join(vf.REPO, "search", "zz_verif_c22gen_test.go"): gp})
-        if h2["rc"] != 0:
-            broken.append("harness TestVerifC22 (search) failed (rc=%d): %s" % (h2["rc"], h2["log"][-1500:]))
-        recs += h2["records"]
+
+    def h_index():
+        return vf.go_harness(ctx, "index", "TestVerifC22$", ["index/zz_verif_c22_test.go", "index/zz_verif_c22gen_test.go"], n,
+                             timeout=600 if ctx.tier == "quick" else 3000, out_name="out-index.jsonl")
+
+    def h_search():
+        return vf.go_harness(ctx, "search", "TestVerifC22", ["search/zz_verif_c22_test.go"], ctx.n(200, 4000),
+                             timeout=600 if ctx.tier == "quick" else 3000, out_name="out-search.jsonl",
+                             extra_replace={os.path.join(vf.REPO, "search", "zz_verif_c22gen_test.go"): gp})
+    # the two Go harnesses run while the proofs are checked
+    with ThreadPoolExecutor(max_workers=2) as ex:
+        f1, f2 = ex.submit(h_index), ex.submit(h_search)
+        proofs = vf.coq_props(ctx, pid)
+        T["proofs"] = round(time.time() - t0, 1)
+        aok, aout = vf.audit()
+        if not aok:
+            proofs["ok"] = False
+            proofs["discharged"] = 0
+            broken.append("audit: " + aout[-800:])
+        if ctx.tier == "thorough" and proofs["ok"]:
+            cok, cout = vf.coqchk(pid)
+            proofs["coqchk"] = cout[-1500:]
+            if not cok:
+                proofs["ok"] = False
+                broken.append("coqchk rejects Props/%s.vo: %s" % (pid, cout[-800:]))
+        if not proofs["ok"]:
+            broken.append("proof obligations of Props/%s.v do not check: %s" % (pid, (proofs.get("broken_files") or proofs.get("nonstd_axioms") or proofs["log"][-800:])))
+        h1, h2 = f1.result(), f2.result()
+    T["harnesses+proofs"] = round(time.time() - t0, 1)
+    recs = []
+    if h1["rc"] != 0:
+        broken.append("harness TestVerifC22 (index) failed (rc=%d): %s" % (h1["rc"], h1["log"][-1500:]))
+    recs += h1["records"]
+    if h2["rc"] != 0:
+        broken.append("harness TestVerifC22 (search) failed (rc=%d): %s" % (h2["rc"], h2["log"][-1500:]))
+    recs += h2["records"]
     cases = [r for r in recs if r.get("kind") == "case"]
     for r in recs:
         if r.get("kind") == "oracle_fail":
             failures.append(dict(key=r.get("key", "?"), what=r.get("what", ""), replay=r.get("replay")))
     ev = dict(ok=True, bad=[], evaluated=0, log="")
     if cases:
-        ev = vf.coq_eval_cases(ctx, pid, IMPORTS, "c22case", "c22_mismatches", [c["coq"] for c in cases], shard=300)
+        ev = par_eval(ctx, pid, IMPORTS, "c22case", "c22_mismatches", [c["coq"] for c in cases])
+        T["model-eval"] = round(time.time() - t0, 1)
         if not ev["ok"]:
             broken.append("model evaluation failed: " + ev["log"][-1500:])
         for i in ev["bad"][:20]:
@@ -64,10 +96,14 @@ def run(ctx):
                 str(cases[i].get("sample"))[:600], cases[i]["coq"][:1500]))
     else:
         broken.append("harness produced no cases")
-    cov = dict(evaluations=len(cases), distinct_nontrivial=vf.distinct_nontrivial(cases), rule=RULE,
+    cov = dict(phase_seconds=T, evaluations=len(cases), distinct_nontrivial=vf.distinct_nontrivial(cases), rule=RULE,
                samples=[c.get("sample") for c in cases[:3]], traces_validated_against_impl=ev["evaluated"],
                correspondence_mismatches=len(ev["bad"]), oracle_failures=len(failures),
                input_distribution=vf.histogram(cases, "class"), trusted_base=TRUSTED)
+    keys = {}
+    for f_ in failures:
+        keys[f_["key"]] = keys.get(f_["key"], 0) + 1
+    cov["oracle_failure_keys"] = keys
     if proofs.get("coqchk"):
         cov["coqchk"] = proofs["coqchk"]
     for r_ in recs:
